@@ -1,14 +1,53 @@
 //! C13 — delete, insert, append, repeat, trim_zeros change exactly the addressed positions. Value protocol with tags.
+//!
+//! Every case is executed on the i64 tag array (the answer is compared with the model) AND on images of the tag array in other
+//! element types (u8, i16 with negative values, i64 beyond 2^53, f64 with tag 0 = -0.0, f32 likewise, String, bool), each through
+//! BOTH receivers: the plain `Array<T>` call and the same call on `Ok(array)` through `impl … for Result<Array<T>, ArrayError>`.
+//! An image that behaves differently from the i64 run turns the observed answer into `TYPE-DIVERGENCE …` / `RECEIVER-DIVERGENCE …`,
+//! which then fails the comparison with the model.
+//! `trimc` is the value-class stream of `trim_zeros`: the case carries a list of class codes (+0, -0, NaN, subnormals, inf, extreme
+//! integers, zero-looking strings …); the model sees 0 for the two zero classes and `position+1` otherwise, so its answer names the
+//! surviving slice, which every element type must reproduce bit-wise.
 use arrharness::*;
+use std::panic::{catch_unwind, AssertUnwindSafe};
+
+type R<T> = Result<Array<T>, ArrayError>;
 
 fn subsets(n: usize) -> Vec<Vec<usize>> { (0..(1usize << n)).map(|m| (0..n).filter(|k| (m >> k) & 1 == 1).collect()).collect() }
 
 fn landing(idxs: &[usize]) -> Vec<usize> { let mut s = idxs.to_vec(); s.sort(); s.iter().enumerate().map(|(k, i)| i + k).collect() }
 
+// ------------------------------------------------------------------------------------------------ generator
+
+/// `k` DISTINCT indices below `n`, shuffled
+fn distinct(rng: &mut Rng, n: usize, k: usize) -> Vec<usize> { let mut p = rng.perm(n); p.truncate(k.min(n)); p }
+
+/// request spellings of the same index set: shuffled, ascending, descending, shuffled with repeated entries
+fn spellings(rng: &mut Rng, set: &[usize]) -> Vec<Vec<usize>> {
+    let mut asc = set.to_vec(); asc.sort();
+    let mut desc = asc.clone(); desc.reverse();
+    let mut dup = set.to_vec();
+    for _ in 0..(set.len() / 2 + 1) { if !set.is_empty() { dup.push(*rng.pick(set)); } }
+    let p = rng.perm(dup.len()); let dup: Vec<usize> = p.iter().map(|&i| dup[i]).collect();
+    vec![set.to_vec(), asc, desc, dup]
+}
+
+/// the class codes of `trimc`; 0 and 1 are the two zeros
+const NCODES: usize = 13;
+fn trimc_line(codes: &[usize]) -> String {
+    let ints: Vec<i64> = codes.iter().enumerate().map(|(i, &c)| if c <= 1 { 0 } else { i as i64 + 1 }).collect();
+    format!("trimc {}:{} {}", codes.len(), show_list(&ints), show_list(codes))
+}
+
 fn gen(tier: &str, seed: u64, out: &mut dyn FnMut(String)) {
     let thorough = tier == "thorough";
     let mut rng = Rng::new(seed);
     for l in ["delete i2,3,2,2 1 1", "repeat i2,3,2 1,2 2", "repeat i2,3,4 1,0,2 1", "insert i2,3 4 i1+100"] { out(l.to_string()); }
+    // corpus of past misses (seeded changes C13-r2-m1, -m2, -m3): one literal witness each, the classes follow in the streams below
+    { let idx: Vec<usize> = (0..48).map(|k| (7 * k + 3) % 11).collect(); out(format!("insert i10 {} i48+100", show_list(&idx))); }
+    out(trimc_line(&[0, 2, 0, 5, 5, 0, 2, 0]));
+    { let idx: Vec<usize> = (0..70).map(|k| (k * 37) % 100).collect(); out(format!("delete i100 {} none", show_list(&idx))); }
+
     let mut all = shapes(1, 4, 1, 3);
     all.extend(vec![vec![4], vec![5], vec![2, 4], vec![4, 2], vec![2, 3, 4]]);
     for s in &all {
@@ -64,18 +103,304 @@ fn gen(tier: &str, seed: u64, out: &mut dyn FnMut(String)) {
         if rng.below(2) == 0 { let k = rng.below(s[ax] + 1); let idx: Vec<usize> = (0..k).map(|_| rng.below(s[ax])).collect(); out(format!("delete {a} {} {ax}", show_list(&idx))); }
         else { let c: Vec<usize> = (0..s[ax]).map(|_| rng.below(3)).collect(); out(format!("repeat {a} {} {ax}", show_list(&c))); }
     }
+
+    // ============================================================ robustness streams (FRAMEWORK.md)
+    let reps = if thorough { 3 } else { 1 };
+
+    // ---- stream 1a: flat delete of MANY distinct positions. The numbers of distinct indices straddle the small-sort / block
+    // thresholds of std (20/21, 32/33, 64/65, 128/129, 256/257) and reach "all but one" and "all"; each set in four spellings
+    for n in [24usize, 70, 100, 130, 300, 1030, 4100] {
+        let a = tag(&[n]);
+        let mut ks = vec![20, 21, 32, 33, 64, 65, 66, 100, 128, 129, 256, 257, 1000, 1025, 4097, n / 2, n - 1, n];
+        ks.retain(|&k| k <= n); ks.sort(); ks.dedup();
+        for &k in &ks { for _ in 0..reps {
+            let set = distinct(&mut rng, n, k);
+            for (j, sp) in spellings(&mut rng, &set).into_iter().enumerate() {
+                if n > 1030 && j > 0 && j < 3 && !thorough { continue; }
+                out(format!("delete {a} {} none", show_list(&sp)));
+            }
+        } }
+        out(format!("delete {a} {} none", show_list(&(0..=n).collect::<Vec<_>>())));       // one index too far
+    }
+    for s in [vec![40usize, 30], vec![70, 70], vec![4, 4, 4, 4], vec![2, 3, 4, 5, 2]] {
+        let n: usize = s.iter().product(); let a = tag(&s);
+        for k in [65usize, 66, n / 2, n - 1] { if k <= n { let set = distinct(&mut rng, n, k); out(format!("delete {a} {} none", show_list(&set))); } }
+    }
+    // ---- stream 1b: delete along an axis that is LONG (>= 65 positions: the per-lane call sees many distinct indices) in leading,
+    // inner and trailing position
+    for (s, ax) in [(vec![2usize, 100], 1usize), (vec![100, 2], 0), (vec![1, 65], 1), (vec![66, 3], 0), (vec![3, 70, 2], 1), (vec![70, 70], 0), (vec![70, 70], 1),
+                    (vec![2, 2, 130], 2), (vec![300, 1], 0), (vec![2, 1030], 1), (vec![66, 9], 0), (vec![9, 66], 1), (vec![3, 3, 3, 65], 3)] {
+        let a = tag(&s); let d = s[ax];
+        // the model driver needs ~0.5 s for one axis delete on 4900 elements: such shapes get three requests in the quick tier
+        let heavy = s.iter().product::<usize>() > 2000 && !thorough;
+        let mut ks = if heavy { vec![65usize, d - 1] } else { vec![1usize, 20, 21, 64, 65, 66, d / 2, d - 1, d] }; ks.retain(|&k| k <= d); ks.sort(); ks.dedup();
+        for &k in &ks {
+            if heavy { out(format!("delete {a} {} {ax}", show_list(&distinct(&mut rng, d, k)))); continue; }
+            let set = distinct(&mut rng, d, k);
+            let sps = spellings(&mut rng, &set);
+            out(format!("delete {a} {} {ax}", show_list(&sps[0])));
+            if k >= 64 || thorough { out(format!("delete {a} {} {ax}", show_list(&sps[3]))); out(format!("delete {a} {} {ax}", show_list(&sps[1]))); }
+        }
+        out(format!("delete {a} {} {ax}", show_list(&(0..=d).collect::<Vec<_>>())));
+    }
+    // ---- stream 1c: every operation on the big shapes (axis lengths 7-17 in every position, > 256 / 1024 / 4096 elements)
+    for s in big_shapes() {
+        let a = tag(&s); let nd = s.len(); let n: usize = s.iter().product();
+        let heavy = n > 3000 && !thorough;      // model driver: ~0.5 s per axis operation on > 4000 elements
+        for ax in 0..nd {
+            let d = s[ax];
+            if heavy {
+                let k = 1 + rng.below(d); let set = distinct(&mut rng, d, k);
+                out(format!("delete {a} {} {ax}", show_list(&spellings(&mut rng, &set)[3])));
+                let c: Vec<usize> = (0..d).map(|_| rng.below(3)).collect();
+                out(format!("repeat {a} {} {ax}", show_list(&c)));
+                out(format!("delete {a} {} {ax}", d));
+                continue;
+            }
+            for _ in 0..reps {
+                let k = rng.below(d + 1); let set = distinct(&mut rng, d, k);
+                let sps = spellings(&mut rng, &set);
+                out(format!("delete {a} {} {ax}", show_list(&sps[3])));
+                out(format!("delete {a} {} {ax}", show_list(&sps[0])));
+                let c: Vec<usize> = (0..d).map(|_| rng.below(3)).collect();
+                out(format!("repeat {a} {} {ax}", show_list(&c)));
+            }
+            out(format!("delete {a} {} {ax}", show_list(&distinct(&mut rng, d, d - 1))));
+            out(format!("delete {a} {} {ax}", d));
+            out(format!("repeat {a} 2 {ax}")); out(format!("repeat {a} 0 {ax}"));
+            out(format!("repeat {a} {} {ax}", show_list(&vec![1; d + 1])));
+        }
+        let k = rng.below(n + 1); let idx: Vec<usize> = (0..k).map(|_| rng.below(n)).collect();
+        out(format!("delete {a} {} none", show_list(&idx)));
+        out(format!("delete {a} - none")); out(format!("delete {a} {n} none"));
+        for p in [0, n / 2, n] { out(format!("insert {a} {p} i1+100")); out(format!("insert_delete {a} {p} i3+100")); }
+        for k in [3usize, 21, 65] {
+            let idx: Vec<usize> = (0..k).map(|_| rng.below(n + 1)).collect();
+            out(format!("insert {a} {} {}", show_list(&idx), tag_off(&[k], 100)));
+            out(format!("insert_delete {a} {} {}", show_list(&idx), tag_off(&[k], 100)));
+        }
+        out(format!("insert {a} {} i1+100", n + 1));
+        out(format!("append {a} i3+100")); out(format!("append {a} {}", tag_off(&[300], 100))); out(format!("append {a} i0"));
+        out(format!("repeat {a} 2 none")); out(format!("repeat {a} 1 none")); out(format!("repeat {a} 0 none"));
+        let last = *s.last().unwrap();
+        let c: Vec<usize> = (0..last).map(|_| rng.below(3)).collect(); out(format!("repeat {a} {} none", show_list(&c)));
+    }
+    // ---- stream 1d: flat insert of MANY (index, value) pairs: more than 20 / 32 / 64 / 256 pairs, positions drawn from a small
+    // pool (so that many pairs share a position and their request order matters), not sorted; also sorted / reversed / one position
+    for n in [0usize, 1, 10, 16, 100, 1030] {
+        let a = tag(&[n]);
+        for k in [20usize, 21, 24, 33, 48, 65, 100, 300] { for r in 0..reps {
+            if n == 1030 && k > 100 && r > 0 { continue; }
+            let pool = 1 + rng.below((n + 1).min(11));
+            let pos: Vec<usize> = (0..pool).map(|_| rng.below(n + 1)).collect();
+            let idx: Vec<usize> = (0..k).map(|_| *rng.pick(&pos)).collect();
+            out(format!("insert {a} {} {}", show_list(&idx), tag_off(&[k], 100)));
+            out(format!("insert_delete {a} {} {}", show_list(&idx), tag_off(&[k], 100)));
+            let idx2: Vec<usize> = (0..k).map(|j| (7 * j + 3) % (n + 1)).collect();
+            out(format!("insert {a} {} {}", show_list(&idx2), tag_off(&[k], 100)));
+            let mut asc = idx.clone(); asc.sort(); out(format!("insert {a} {} {}", show_list(&asc), tag_off(&[k], 100)));
+            asc.reverse(); out(format!("insert {a} {} {}", show_list(&asc), tag_off(&[k], 100)));
+            out(format!("insert {a} {} {}", pos[0], tag_off(&[k], 100)));                 // k values at one position (broadcast index)
+            out(format!("insert {a} {} {}", show_list(&vec![pos[0]; k]), tag_off(&[k], 100)));   // the same, spelled pairwise
+            out(format!("insert {a} {} i1+100", show_list(&idx)));                        // one value at k positions
+            out(format!("insert {a} {} {}", show_list(&idx), tag_off(&[k + 1], 100)));    // counts differ: refused
+        } }
+    }
+    for s in [vec![3usize, 4], vec![2, 3, 2], vec![9, 9]] {
+        let a = tag(&s); let n: usize = s.iter().product();
+        for k in [24usize, 48, 81] {
+            let idx: Vec<usize> = (0..k).map(|_| rng.below(n + 1).min(3 + rng.below(4))).collect();
+            out(format!("insert {a} {} {}", show_list(&idx), tag_off(&[k], 100)));
+            out(format!("insert_delete {a} {} {}", show_list(&idx), tag_off(&[k], 100)));
+        }
+    }
+    // ---- stream 2: zero-length axes, every operation
+    for s in zero_shapes().into_iter().chain(vec![vec![0usize, 3], vec![3, 0], vec![0, 0, 0], vec![1, 0, 1]]) {
+        let a = tag(&s); let nd = s.len();
+        for ax in 0..=nd {
+            out(format!("delete {a} - {ax}")); out(format!("delete {a} 0 {ax}")); out(format!("delete {a} 1,0 {ax}"));
+            out(format!("repeat {a} 2 {ax}")); out(format!("repeat {a} 0 {ax}")); out(format!("repeat {a} - {ax}")); out(format!("repeat {a} 1,2 {ax}")); out(format!("repeat {a} 1,2,0 {ax}"));
+        }
+        out(format!("delete {a} - none")); out(format!("delete {a} 0 none"));
+        out(format!("repeat {a} 2 none")); out(format!("repeat {a} - none")); out(format!("repeat {a} 1,2 none"));
+        out(format!("insert {a} 0 i1+100")); out(format!("insert {a} 0 i3+100")); out(format!("insert {a} 0,0 i2+100")); out(format!("insert {a} 1 i1+100")); out(format!("insert {a} - i1+100")); out(format!("insert {a} 0 i0"));
+        out(format!("insert_delete {a} 0 i1+100")); out(format!("insert_delete {a} 0,0,0 i3+100"));
+        out(format!("append {a} i0")); out(format!("append {a} i2+100")); out(format!("append {a} i2,0")); out(format!("append {a} {a}"));
+        out(format!("trim {a}"));
+    }
+    for s in [vec![3usize], vec![2, 2]] { let a = tag(&s); out(format!("append {a} i0")); out(format!("append {a} i0,2")); out(format!("insert {a} 0 i0")); out(format!("insert {a} - i0")); out(format!("repeat {a} - none")); out(format!("repeat {a} - 0")); }
+    // ---- stream 3: value classes of trim_zeros (the only value-dependent operation): +0 / -0 / NaN / 1 exhaustively, then every
+    // class (subnormals, infinities, extreme integers, zero-looking strings) at random, then long lanes with wide zero borders
+    for len in 0..=(if thorough { 7 } else { 5 }) {
+        for c in boxes(&vec![4; len]) { let codes: Vec<usize> = c.iter().map(|&x| [0usize, 1, 2, 5][x]).collect(); out(trimc_line(&codes)); }
+    }
+    for _ in 0..(if thorough { 6000 } else { 800 }) {
+        let len = 1 + rng.below(12);
+        let codes: Vec<usize> = (0..len).map(|_| if rng.below(5) < 2 { rng.below(2) } else { rng.below(NCODES) }).collect();
+        out(trimc_line(&codes));
+    }
+    for len in [17usize, 64, 300, 1030, 4100] { for _ in 0..(2 * reps) {
+        let (l, r) = (rng.below(len / 2), rng.below(len / 2));
+        let mut codes: Vec<usize> = (0..len).map(|i| if i < l || i >= len - r { rng.below(2) } else if rng.below(3) == 0 { rng.below(2) } else { 2 + rng.below(NCODES - 2) }).collect();
+        // a NaN / subnormal right at, or just inside, a zero border
+        if rng.below(2) == 0 && l > 1 { codes[l - 1 - rng.below(2)] = 2; }
+        if rng.below(2) == 0 && r > 1 { codes[len - r + rng.below(2)] = *rng.pick(&[2usize, 3, 4, 12]); }
+        out(trimc_line(&codes));
+    } }
+    out(trimc_line(&vec![0; 4100])); out(trimc_line(&vec![1; 300])); out(trimc_line(&vec![2; 300]));
+    for len in [300usize, 4100] { for m in 0..(1usize << 2) {
+        let e: Vec<i64> = (0..len).map(|k| if k == 0 { (m & 1) as i64 } else if k == len - 1 { (m >> 1) as i64 * 7 } else if k % 5 == 0 { 0 } else { k as i64 }).collect();
+        out(format!("trim {}:{}", len, show_list(&e)));
+    } }
+    out("trim i2,0".into()); out("trim 1,4:0,1,2,0".into()); out("trim 1,1,1:0".into());
+}
+
+// ------------------------------------------------------------------------------------------------ executor
+
+fn mk<T: ArrayElement>(s: &str, of: &dyn Fn(i64) -> T) -> Array<T> {
+    let (sh, e) = parse_arr_raw(s);
+    Array::new(e.into_iter().map(of).collect(), sh).expect("harness: malformed array literal in case line")
+}
+
+/// one real call on element type `T`; `chained` = on `Ok(array)` through the `Result` receiver
+fn call<T: ArrayElement>(op: &str, args: &[&str], chained: bool, of: &dyn Fn(i64) -> T) -> Option<R<T>> {
+    let a = mk(args[0], of);
+    let ra: R<T> = Ok(a.clone());
+    Some(match op {
+        "delete" => { let idx = parse_usize_list(args[1]); let ax: Option<usize> = parse_opt(args[2]);
+            if chained { ra.delete(&idx, ax) } else { a.delete(&idx, ax) } }
+        "insert" => { let idx = parse_usize_list(args[1]); let v = mk(args[2], of);
+            if chained { ra.insert(&idx, &v, None) } else { a.insert(&idx, &v, None) } }
+        "insert_delete" => { let idx = parse_usize_list(args[1]); let v = mk(args[2], of); let land = landing(&idx);
+            if chained { ra.insert(&idx, &v, None).delete(&land, None) } else { match a.insert(&idx, &v, None) { Ok(x) => x.delete(&land, None), Err(e) => Err(e) } } }
+        "append" => { let v = mk(args[1], of); if chained { ra.append(&v, None) } else { a.append(&v, None) } }
+        "repeat" => { let reps = parse_usize_list(args[1]); let ax: Option<usize> = parse_opt(args[2]);
+            if chained { ra.repeat(&reps, ax) } else { a.repeat(&reps, ax) } }
+        "trim" => if chained { ra.trim_zeros() } else { a.trim_zeros() },
+        _ => return None,
+    })
+}
+
+enum Out<T: ArrayElement> { Panic, Val(R<T>) }
+fn attempt<T: ArrayElement>(op: &str, args: &[&str], chained: bool, of: &dyn Fn(i64) -> T) -> Option<Out<T>> {
+    match catch_unwind(AssertUnwindSafe(|| call(op, args, chained, of))) { Ok(Some(r)) => Some(Out::Val(r)), Ok(None) => None, Err(_) => Some(Out::Panic) }
+}
+fn out_text<T: ArrayElement>(o: &Out<T>) -> String { match o { Out::Panic => "panic".into(), Out::Val(r) => truncate(&res_arr(r), 200) } }
+
+/// `None` when the image run `img` is the image under `of` of the canonical i64 run
+fn image_diff<T: ArrayElement>(canon: &Out<i64>, img: &Out<T>, of: &dyn Fn(i64) -> T, same: fn(&T, &T) -> bool) -> Option<String> {
+    match (canon, img) {
+        (Out::Panic, Out::Panic) => None,
+        (Out::Val(Err(_)), Out::Val(Err(_))) => None,
+        (Out::Val(Ok(c)), Out::Val(Ok(i))) => {
+            if !consistent(i) { return Some("result violates shape/length consistency".into()); }
+            if c.get_shape().unwrap() != i.get_shape().unwrap() { return Some(format!("shape {:?} instead of {:?}", i.get_shape().unwrap(), c.get_shape().unwrap())); }
+            let (ce, ie) = (c.get_elements().unwrap(), i.get_elements().unwrap());
+            for p in 0..ce.len() { let w = of(ce[p]); if !same(&w, &ie[p]) { return Some(format!("flat position {p} holds {:?} instead of {:?}", ie[p], w)); } }
+            None
+        }
+        _ => Some(format!("outcome `{}`", out_text(img))),
+    }
+}
+
+/// run both receivers on the image type; the first divergence from the canonical i64 run as text
+fn images<T: ArrayElement>(canon: &Out<i64>, op: &str, args: &[&str], name: &str, of: &dyn Fn(i64) -> T, same: fn(&T, &T) -> bool) -> Option<Result<(), String>> {
+    for chained in [false, true] {
+        let o = attempt(op, args, chained, of)?;
+        if let Some(d) = image_diff(canon, &o, of, same) {
+            let kind = if chained { "RECEIVER-DIVERGENCE" } else { "TYPE-DIVERGENCE" };
+            return Some(Err(format!("{kind} element type {name}, {} receiver: {d}; i64 plain run: {}", if chained { "Result" } else { "plain" }, out_text(canon))));
+        }
+    }
+    Some(Ok(()))
+}
+
+fn eq<T: PartialEq>(a: &T, b: &T) -> bool { a == b }
+fn bits64(a: &f64, b: &f64) -> bool { a.to_bits() == b.to_bits() }
+fn bits32(a: &f32, b: &f32) -> bool { a.to_bits() == b.to_bits() }
+
+/// structural operations (and `trim` on integer patterns): the i64 run and all its images
+fn run_structural(op: &str, args: &[&str]) -> Option<String> {
+    let canon = attempt(op, args, false, &|t| t)?;
+    if let Out::Val(Ok(a)) = &canon { if !consistent(a) { return Some(format!("INCONSISTENT result (shape/length): {}", out_text(&canon))); } }
+    let text = match &canon { Out::Panic => "panic".to_string(), Out::Val(r) => res_arr(r) };
+    // the same call a second time, on the Result receiver
+    let again = attempt(op, args, true, &|t| t)?;
+    if let Some(d) = image_diff(&canon, &again, &|t| t, eq) { return Some(format!("RECEIVER-DIVERGENCE element type i64, Result receiver: {d}; plain run: {}", out_text(&canon))); }
+    let value_dep = op == "trim";       // images must then map 0 to the zero of the type and everything else to a non-zero
+    macro_rules! img { ($name:expr, $of:expr, $same:expr) => { if let Err(d) = images(&canon, op, args, $name, &$of, $same)? { return Some(d); } } }
+    if value_dep {
+        img!("u8", |t: i64| if t == 0 { 0u8 } else { 255 - ((t - 1).rem_euclid(255)) as u8 }, eq);
+        img!("i16", |t: i64| (-(t.rem_euclid(32000))) as i16, eq);
+        img!("i64 beyond 2^53", |t: i64| if t == 0 { 0 } else { (1i64 << 62) - 7 * t }, eq);
+    } else {
+        img!("u8", tag_u8, eq);
+        img!("i16", |t: i64| (t.rem_euclid(65521) - 32760) as i16, eq);
+        img!("i64 beyond 2^53", |t: i64| (1i64 << 62) - 7 * t, eq);
+        img!("bool", |t: i64| t % 2 != 0, eq);
+    }
+    img!("f64 (tag 0 = -0.0)", tag_f64z, bits64);
+    img!("f32 (tag 0 = -0.0)", |t: i64| if t == 0 { -0.0f32 } else { t as f32 }, bits32);
+    img!("String", |t: i64| t.to_string(), eq);
+    Some(text)
+}
+
+// ---- trimc: value classes
+
+const F64_CLASS: [f64; NCODES] = [0.0, -0.0, f64::NAN, 5e-324, -5e-324, 1.0, -1.0, f64::INFINITY, f64::NEG_INFINITY, f64::MIN_POSITIVE, f64::MAX, 9007199254740993.0, 1e-320];
+const F32_CLASS: [f32; NCODES] = [0.0, -0.0, f32::NAN, 1e-45, -1e-45, 1.0, -1.0, f32::INFINITY, f32::NEG_INFINITY, f32::MIN_POSITIVE, f32::MAX, 16777217.0, 1e-40];
+const I64_CLASS: [i64; NCODES] = [0, 0, 1, -1, i64::MAX, i64::MIN, 9007199254740993, -9007199254740993, 1 << 32, 1 << 53, 256, -256, 2];
+const U8_CLASS: [u8; NCODES] = [0, 0, 1, 255, 254, 128, 127, 2, 16, 64, 200, 100, 3];
+const I16_CLASS: [i16; NCODES] = [0, 0, 1, -1, i16::MAX, i16::MIN, 256, -256, 255, 128, -128, 2, -2];
+const STR_CLASS: [&str; NCODES] = ["0", "0", "", "00", "0.0", "-0", " 0", "1", "nan", "0 ", "+0", "O", "zero"];
+
+/// `trim_zeros` on the class-coded lane in element type `T`; the answer as the model would print it (surviving positions + 1, 0 for
+/// a kept zero), found by locating the result as a contiguous slice of the input (bit-wise)
+fn trimc_run<T: ArrayElement>(input: Vec<T>, ints: &[i64], chained: bool, same: fn(&T, &T) -> bool, hint: Option<usize>) -> String {
+    let n_in = input.len();
+    let a = Array::new(input.clone(), vec![n_in]).expect("harness: lane");
+    let r = catch_unwind(AssertUnwindSafe(|| if chained { let ra: R<T> = Ok(a.clone()); ra.trim_zeros() } else { a.trim_zeros() }));
+    let r = match r { Err(_) => return "panic".into(), Ok(Err(e)) => return format!("err {}", err_name(&e)), Ok(Ok(r)) => r };
+    if !consistent(&r) { return "ok <shape/length inconsistent>".into(); }
+    if r.get_shape().unwrap().len() != 1 { return format!("ok <rank {}>", r.get_shape().unwrap().len()); }
+    let e = r.get_elements().unwrap(); let n = e.len();
+    if n == 0 { return "ok 0:-".into(); }
+    if n > n_in { return format!("ok <{} elements out of {}>", n, n_in); }
+    let at = |lo: usize| (0..n).all(|k| same(&input[lo + k], &e[k]));
+    let mut found = None;
+    if let Some(h) = hint { if h + n <= n_in && at(h) { found = Some(h); } }
+    if found.is_none() { found = (0..=(n_in - n)).find(|&lo| at(lo)); }
+    match found { Some(lo) => format!("ok {}:{}", n, show_list(&ints[lo..lo + n])), None => format!("ok <{} elements that are no contiguous slice of the input; first {:?}>", n, e[0]) }
+}
+
+fn run_trimc(args: &[&str], expected: &str) -> Option<String> {
+    let (shape, ints) = parse_arr_raw(args[0]);
+    let codes = parse_usize_list(args[1]);
+    if shape != vec![codes.len()] || ints.len() != codes.len() || codes.iter().any(|&c| c >= NCODES) { return None; }
+    // the integers sent to the model must say exactly which positions are zeros
+    for (i, &c) in codes.iter().enumerate() { if ints[i] != if c <= 1 { 0 } else { i as i64 + 1 } { return None; } }
+    // where the model says the surviving slice starts (first surviving element is non-zero, = position + 1)
+    let hint = expected.strip_prefix("ok ").and_then(|s| s.split_once(':')).and_then(|(_, e)| e.split(',').next().and_then(|x| x.parse::<usize>().ok())).and_then(|p| p.checked_sub(1));
+    let mut answers: Vec<(String, String)> = vec![];
+    macro_rules! ty { ($name:expr, $v:expr, $same:expr) => { for chained in [false, true] {
+        answers.push((format!("{}{}", $name, if chained { ", Result receiver" } else { "" }), trimc_run($v, &ints, chained, $same, hint))); } } }
+    ty!("f64", codes.iter().map(|&c| F64_CLASS[c]).collect::<Vec<f64>>(), bits64);
+    ty!("f32", codes.iter().map(|&c| F32_CLASS[c]).collect::<Vec<f32>>(), bits32);
+    ty!("i64", codes.iter().map(|&c| I64_CLASS[c]).collect::<Vec<i64>>(), eq);
+    ty!("u8", codes.iter().map(|&c| U8_CLASS[c]).collect::<Vec<u8>>(), eq);
+    ty!("i16", codes.iter().map(|&c| I16_CLASS[c]).collect::<Vec<i16>>(), eq);
+    ty!("String", codes.iter().map(|&c| STR_CLASS[c].to_string()).collect::<Vec<String>>(), eq);
+    ty!("bool", codes.iter().map(|&c| c > 1).collect::<Vec<bool>>(), eq);
+    // all element types and receivers must tell the same story; report the first one that does not agree with the model
+    let first = answers[0].1.clone();
+    for (name, ans) in &answers { if ans != expected && !(class_of(ans) == "err" && class_of(expected) == "err") { return Some(format!("{} [element type {}]", ans, name)); } }
+    Some(first)
 }
 
 fn exec(op: &str, args: &[&str], expected: &str) -> Option<Verdict> {
-    let a = parse_arr_i64(args[0]);
     let obs = match op {
-        "delete" => { let idx = parse_usize_list(args[1]); let ax: Option<usize> = parse_opt(args[2]); guarded(|| res_arr(&a.delete(&idx, ax))) }
-        "insert" => { let idx = parse_usize_list(args[1]); let v = parse_arr_i64(args[2]); guarded(|| res_arr(&a.insert(&idx, &v, None))) }
-        "insert_delete" => { let idx = parse_usize_list(args[1]); let v = parse_arr_i64(args[2]); let land = landing(&idx);
-            guarded(|| res_arr(&a.insert(&idx, &v, None).delete(&land, None))) }
-        "append" => { let v = parse_arr_i64(args[1]); guarded(|| res_arr(&a.append(&v, None))) }
-        "repeat" => { let reps = parse_usize_list(args[1]); let ax: Option<usize> = parse_opt(args[2]); guarded(|| res_arr(&a.repeat(&reps, ax))) }
-        "trim" => guarded(|| res_arr(&a.trim_zeros())),
+        "delete" | "insert" | "insert_delete" | "append" | "repeat" | "trim" => run_structural(op, args)?,
+        "trimc" => run_trimc(args, expected)?,
         _ => return None,
     };
     Some(compare_default(obs, expected))
@@ -83,10 +408,10 @@ fn exec(op: &str, args: &[&str], expected: &str) -> Option<Verdict> {
 
 fn nontrivial(op: &str, args: &[&str]) -> bool {
     let s = parse_arr_raw(args[0]).0;
-    match op { "trim" => s.iter().product::<usize>() >= 2, _ => args[1] != "-" && s.iter().product::<usize>() >= 2 }
+    match op { "trim" | "trimc" => s.iter().product::<usize>() >= 2, _ => args[1] != "-" && s.iter().product::<usize>() >= 2 }
 }
 
 fn main() {
     harness_main(Spec { prop: "C13", gen, exec, nontrivial, hang_secs: 20,
-        rule: "every shape rank<=4 len<=3 (+ lengths 4-5): delete along every axis for EVERY subset of its indices (+ reversed / repeated requests, out-of-range index and axis), flat delete (every subset when <=6 elements, sampled multisets otherwise); flat insert of 1 value at every position 0..=n, 2-3 values at sampled (also repeated) positions, one value at several positions, several values at one position, malformed; insert-then-delete round trips; append of 0..3 values; repeat along every axis with EVERY count vector in {0,1,2}^d and single counts, flat repeat; trim_zeros on every zero/non-zero pattern up to length 7 (8); seeded random rank 5. Tag arrays. non-trivial = >=2 elements and a non-empty request" });
+        rule: "every shape rank<=4 len<=3 (+ lengths 4-5): delete along every axis for EVERY subset of its indices (+ reversed / repeated requests, out-of-range index and axis), flat delete (every subset when <=6 elements, sampled multisets otherwise); flat insert of 1 value at every position 0..=n, 2-3 values at sampled (also repeated) positions, one value at several positions, several values at one position, malformed; insert-then-delete round trips; append of 0..3 values; repeat along every axis with EVERY count vector in {0,1,2}^d and single counts, flat repeat; trim_zeros on every zero/non-zero pattern up to length 7 (8); seeded random rank 5. Robustness streams: flat delete of 20..4100 DISTINCT positions (shuffled / ascending / descending / with repeats) from lanes of 24..4100 elements, delete along axes of length 65..1030, every operation on big_shapes() (axis lengths 7-17, > 256/1024/4096 elements), flat insert of 20..300 (index,value) pairs with many shared positions (request order observable), zero-length axes for every operation, trim_zeros value classes (+0, -0, NaN, subnormals, infinities, extreme integers, zero-looking strings; exhaustive over {+0,-0,NaN,1} to length 5 (7), random over all classes, lanes up to 4100). Every case runs on i64 tags and on u8 / i16 / i64>2^53 / f64(-0.0) / f32 / String / bool images, plain and Result receiver. Tag arrays. non-trivial = >=2 elements and a non-empty request" });
 }
